@@ -464,9 +464,9 @@ def h_mvn(ctx, cfg):
         b = numpy.array([ctx.real("p%d" % (50 + i)) for i in range(D)])
         z = numpy.array([ctx.real("z%d" % i) for i in range(D)])
 
-        class R:
-            def normal(self, size=None):
-                return z.copy()
+        class R:  # numpy's contract: normal(loc, scale, size) = loc + scale * (standard normal draws)
+            def normal(self, loc=0.0, scale=1.0, size=None):
+                return loc + scale * z.copy()
         r = mvn.sample_mvn_from_precision(Q, mu_part=b, rng=R())
         L = numpy.linalg.cholesky(Q)
         x = numpy.linalg.solve(L.T, z)
@@ -481,9 +481,9 @@ def h_mvn(ctx, cfg):
     b = [ctx.real("p%d" % (50 + i)) for i in range(D)]
     z = [ctx.real("z%d" % i) for i in range(D)]
 
-    class R:
-        def normal(self, size=None):
-            return np.array(z, dtype=float)
+    class R:  # numpy's contract: normal(loc, scale, size) = loc + scale * (standard normal draws)
+        def normal(self, loc=0.0, scale=1.0, size=None):
+            return loc + scale * np.array(z, dtype=float)
     eng = ctx.eng
     n0 = eng.nfresh
     r = mvn.sample_mvn_from_precision(np.array(q, dtype=float), mu_part=np.array(b, dtype=float), rng=R()).tolist()
@@ -492,9 +492,22 @@ def h_mvn(ctx, cfg):
     L = [[0.0] * D for _ in range(D)]
     it = iter(Ls)
     from ..engine import SymReal
-    for i in range(D):
-        for j in range(i + 1):
-            L[i][j] = SymReal(next(it))
+    if len(Ls) != D * (D + 1) // 2:
+        # the code did not factorise Q (or not once): the reference factor is introduced here under the LAPACK contract
+        for i in range(D):
+            for j in range(i + 1):
+                L[i][j] = ctx.eng.fresh_real("Lref")
+        for i in range(D):
+            ctx.assume(L[i][i] > 0)
+            for j in range(i + 1):
+                acc = 0.0
+                for m in range(j + 1):
+                    acc = acc + L[i][m] * L[j][m]
+                ctx.assume(acc == q[i][j])
+    else:
+        for i in range(D):
+            for j in range(i + 1):
+                L[i][j] = SymReal(next(it))
     # x solves L^T x = z ; then Q (r - x) = b
     x = [ctx.eng.fresh_real("xsol") for _ in range(D)]
     for i in range(D):
